@@ -18,7 +18,7 @@ META = dict(
 def tasks(tier):
     from vf.core import Task
     W = lambda name, fname, **kw: Task('props.wire:run', name='C05/wire.' + name, fname=fname, kwargs=kw, timeout=400)
-    ts = [W('c05_inbreeding_roles', 'c05_inbreeding_roles'), W('trapz', 'c05_trapz'),
+    ts = [Task('props.C05:ob_memo', name='C05/memo-keys', timeout=120), W('c05_inbreeding_roles', 'c05_inbreeding_roles'), W('trapz', 'c05_trapz'),
           W('direct_1d.n3_G4', 'c05_direct_1d', n=3, G=4), W('direct_1d.n2_G3_het', 'c05_direct_1d', n=2, G=3, het='xx'),
           W('direct_2d.2_1_G3', 'c05_direct_2d', nx=2, ny=1, G=3)]
     ts += [W('dispatch.%dD' % P, 'c05_from_phi_dispatch', P=P) for P in (1, 2, 3, 4)]
@@ -32,6 +32,11 @@ def tasks(tier):
                W('direct_2d.2_2_G4', 'c05_direct_2d', nx=2, ny=2, G=4)]
     return ts + bounded_tasks('C05', tier)
 
+
+def ob_memo():
+    """the memoised helpers of the sampling kernels (beta-binomial convolution, partition counts, dbeta tables): the cache key determines every argument"""
+    from contracts.py_memo import all_memo_obligations
+    return all_memo_obligations('C05', only=['cached_part', 'cached_part_precalc', 'multinomln', 'BetaBinomln', 'cached_dbeta'])
 
 MANIFEST_ENTRY = dict(
     category='other',
